@@ -144,6 +144,15 @@ def make_run(run, schedule, policy, max_steps):
         run.job2 = job2
 
         def requester():
+            if run.scenario == 'control' and run.stop_kind in ('stop_current', 'stop_all'):
+                # a stop request while nothing runs is harmless: whatever is queued afterwards runs and can be stopped as usual
+                if run.stop_kind == 'stop_current':
+                    jc.stop_current()
+                else:
+                    import types
+                    from web.web_app import WebApp
+                    WebApp.stop_all(types.SimpleNamespace(_jobs=jc))
+                s.mark('idle-stop-done')
             if run.scenario == 'background':
                 # the first job runs in the background (spawn_job), the second is the active foreground job
                 jc.spawn_job(job, 'first')
@@ -421,6 +430,13 @@ def judge(run, s, outcome):
                 out.append(('C09/stop-all-next-job-started', 'stop-all: the second job was still queued when the queue was cleared, yet it was started'))
             if q_len != 0:
                 out.append(('C09/stop-all-queue-not-empty', 'stop-all left %d job(s) in the queue' % q_len))
+            # once stop-all has taken hold of the controller (its first lock acquisition) nothing further starts: the queue is emptied
+            # before anything is stopped, so a job that ends meanwhile finds no successor
+            hold = next((i for i in range(idx['stopping'], len(log)) if log[i][1] == 'R' and log[i][2] == 'acquire'), None)
+            if hold is not None and not out:
+                late = [e for e in log[hold:] if e[2] == 'thread_start' and str(e[3]).startswith('J')]
+                if late:
+                    out.append(('C09/stop-all-next-job-started', 'stop-all: job thread %s was started after stop-all had taken hold of the controller' % late[0][3]))
         elif 'first' in targets:
             if not alive.get('J1'):
                 if 'J2' not in threads:
